@@ -376,6 +376,8 @@ def run_case(case):
                     new = new + 0.5
                 elif e % 7 == 0:
                     new = "str%d" % c       # kind-changing: numeric axis becomes object
+            if any(core.canon_label(x) == core.canon_label(new) for j, x in enumerate(cur) if j != i):
+                continue          # (would create a duplicate label: outside the stated domain)
             if len(m.users(d)) >= 2:
                 cl.add("axis-change-with-2-users")
 
